@@ -117,7 +117,13 @@ def parseSetup (j : Json) : R Setup := do
   let broken ← match j.getObjVal? "logFails" with
     | .ok x => (do return (← (← x.getArr?).toList.mapM (·.getNat?)))
     | .error _ => pure []
-  let cfg : Cfg := ⟨mods.map (·.1), lookupD mods [], conns, fun c => broken.contains c⟩
+  let omitL ← match j.getObjVal? "omitSame" with
+    | .ok x => (do (← arr x).mapM (fun y => do
+        match (← arr y) with
+        | [m, p] => return ((← parseMod m), (← p.getStr?).toList)
+        | _ => throw "bad omitSame item"))
+    | .error _ => pure []
+  let cfg : Cfg := ⟨mods.map (·.1), lookupD mods [], conns, fun c => broken.contains c, fun m p => omitL.contains (m, p)⟩
   return ⟨cfg, fun m p => lookupD cache (.err 0) (m, p), mods.flatMap (fun x => x.2.map (fun p => (x.1, p)))⟩
 
 /-- run the invisible actions of thread `t` -/
